@@ -190,7 +190,13 @@ func (c *updater) UpdateGlobalConfig(haproxyConfig haproxy.Config, mapper *Mappe
 }
 
 func (c *updater) UpdateTCPPortConfig(tcp *hatypes.TCPServicePort, mapper *Mapper) {
-	tcp.CustomConfig = utils.LineToSlice(mapper.Get(ingtypes.TCPConfigTCPService).Value)
+	tcpConfig := mapper.Get(ingtypes.TCPConfigTCPService)
+	if tcpConfig.Source != nil {
+		// snippet coming from an annotation, --disable-config-keywords applies
+		tcp.CustomConfig = c.allowedCustomConfig(tcpConfig)
+	} else {
+		tcp.CustomConfig = utils.LineToSlice(tcpConfig.Value)
+	}
 	tcp.LogFormat = mapper.Get(ingtypes.TCPTCPServiceLogFormat).Value
 	tcp.ProxyProt = mapper.Get(ingtypes.TCPTCPServiceProxyProto).Bool()
 }
